@@ -921,3 +921,346 @@ TARGETS['T9i'] = {'file': 'spatial.py', 'build': build_T9i}
 TARGETS['T9j'] = {'file': 'volume.py', 'build': build_T9j}
 TARGETS['T9k'] = {'file': 'volume.py', 'build': build_T9k}
 TARGETS['T9l'] = {'file': 'spatial.py', 'build': build_T9l}
+
+
+# ---------------------------------------------------------------------------------------------------------------------
+# round 2: the randomised conveniences (T9m) and the accessors (T9n)
+def _norm(s):
+    return ''.join(ast.unparse(s).split()) if not isinstance(s, str) else ''.join(s.split())
+
+
+def build_T9m(tree):
+    """`random_spatial_crop` (loop body with the draw as a parameter, bounds of the draw), `random_flip_spatial` (loop body:
+    which slice is appended for (d in axes, draw)), `random_permute_spatial_axes` (what happens to the drawn permutation:
+    evaluated on every drawn pair / triple), and the shared validation of `axes` (evaluated on every list over -1..3 of
+    length 0..4)"""
+    import numpy as np
+    from py2lean import lean_table
+    # ---- random_spatial_crop
+    fn = find_func(tree, '_VolumeBase.random_spatial_crop')
+    loops = [n for n in strip_doc(fn.body) if isinstance(n, ast.For)]
+    if len(loops) != 1 or _norm(loops[0].target) != '(c,d)' or _norm(loops[0].iter) != 'zip(spatial_shape,self.spatial_shape)' \
+            or loops[0].orelse:
+        raise Unsupported('random_spatial_crop: `for c, d in zip(spatial_shape, self.spatial_shape)` not found')
+    rest = [_norm(s) for s in strip_doc(fn.body) if not isinstance(s, ast.For)]
+    if rest != ['spatial_shape=[operator.index(s)forsinspatial_shape]', 'crop_slices=[]', 'returnself[tuple(crop_slices)]']:
+        raise Unsupported(f'random_spatial_crop: statements around the loop changed: {rest}')
+    body = []
+    draw_seen = False
+    for s in loops[0].body:
+        if isinstance(s, ast.Assign) and _norm(s.targets[0]) == 'start':
+            c = s.value
+            if not (isinstance(c, ast.Call) and _norm(c.func) == 'np.random.randint' and len(c.args) == 2 and not c.keywords):
+                raise Unsupported('random_spatial_crop: `start = np.random.randint(lo, hi)` not found')
+            body.append(ast.parse(f'draw_lo = {ast.unparse(c.args[0])}').body[0])
+            body.append(ast.parse(f'draw_hi = {ast.unparse(c.args[1])}').body[0])
+            draw_seen = True
+        else:
+            body.append(ast.parse(ast.unparse(s)).body[0])
+    if not draw_seen:
+        raise Unsupported('random_spatial_crop: the draw of `start` not found')
+    tr = _Appends(['crop_slices'])
+    body = [tr.visit(s) for s in body]
+    if tr.count['crop_slices'] != 1:
+        raise Unsupported('random_spatial_crop: loop body does not append exactly once to crop_slices')
+    last = body[-1]
+    if not (isinstance(last, ast.Assign) and isinstance(last.value, ast.Call) and _norm(last.value.func) == 'slice'
+            and len(last.value.args) == 2):
+        raise Unsupported('random_spatial_crop: appended item is no longer `slice(a, b)`')
+    a0, a1 = (ast.unparse(x) for x in last.value.args)
+    body[-1] = ast.parse(f'return (draw_lo, draw_hi, {a0}, {a1})').body[0]
+    for s in body:
+        ast.fix_missing_locations(s)
+    t1 = translate_block(body, 'randomCropAxis', [('c', 'int'), ('d', 'int'), ('start', 'int')], {},
+                         doc='`random_spatial_crop`, one axis (requested size c, axis size d, `start` = the value drawn): '
+                             '(low, high) of `np.random.randint(low, high)` and (start, stop) of the slice appended')
+    # ---- random_flip_spatial
+    fn2 = find_func(tree, '_VolumeBase.random_flip_spatial')
+    b2 = strip_doc(fn2.body)
+    loops2 = [n for n in b2 if isinstance(n, ast.For)]
+    if len(loops2) != 1 or _norm(loops2[0].target) != 'd' or _norm(loops2[0].iter) != 'range(3)' or loops2[0].orelse:
+        raise Unsupported('random_flip_spatial: `for d in range(3)` not found')
+    tail2 = [_norm(s) for s in b2 if getattr(s, 'lineno', 0) > loops2[0].lineno]
+    if tail2 != ['returnself[tuple(slices)]'] or 'slices=[]' not in [_norm(s) for s in b2]:
+        raise Unsupported(f'random_flip_spatial: statements around the loop changed: {tail2}')
+
+    class F(ast.NodeTransformer):
+        draws = 0
+
+        def visit_Compare(self, node):
+            if _norm(node) == 'dinaxes':
+                return ast.Name(id='in_axes', ctx=ast.Load())
+            return self.generic_visit(node)
+
+        def visit_Call(self, node):
+            if _norm(node) == 'np.random.randint(2)':
+                F.draws += 1
+                return ast.Name(id='draw', ctx=ast.Load())
+            return self.generic_visit(node)
+
+        def visit_Expr(self, node):
+            t = _norm(node)
+            if t == 'slices.append(slice(None,None,-1))':
+                return ast.parse('return True').body[0]
+            if t == 'slices.append(slice(None))':
+                return ast.parse('return False').body[0]
+            raise Unsupported(f'random_flip_spatial: unexpected statement in the loop: {t}')
+    F.draws = 0
+    blk = [F().visit(ast.parse(ast.unparse(s)).body[0]) for s in loops2[0].body]
+    if F.draws != 1:
+        raise Unsupported('random_flip_spatial: the loop body no longer draws exactly once (`np.random.randint(2)`)')
+    for s in blk:
+        ast.fix_missing_locations(s)
+    t2 = translate_block(blk, 'randomFlipAxis', [('in_axes', 'bool'), ('draw', 'int')], {},
+                         doc='`random_flip_spatial`, one axis: true = `slice(None, None, -1)` is appended, false = `slice(None)` '
+                             '(`in_axes` = `d in axes`, `draw` = `np.random.randint(2)`)')
+    # ---- validation of `axes` (shared text) evaluated on every list over -1..3 of length 0..4
+    fn3 = find_func(tree, '_VolumeBase.random_permute_spatial_axes')
+    b3 = strip_doc(fn3.body)
+    k3 = next((k for k, s in enumerate(b3) if isinstance(s, ast.Assign) and _norm(s.targets[0]) == 'indices'), None)
+    if k3 is None or _norm(b3[k3]) != 'indices=np.random.permutation(axes).tolist()':
+        raise Unsupported('random_permute_spatial_axes: `indices = np.random.permutation(axes).tolist()` not found')
+    if _norm(b3[-1]) != 'returnself.permute_spatial_axes(indices)':
+        raise Unsupported('random_permute_spatial_axes: no longer ends with `return self.permute_spatial_axes(indices)`')
+    valid3 = b3[:k3]
+    valid2 = [s for s in b2 if getattr(s, 'lineno', 0) < loops2[0].lineno and _norm(s) != 'slices=[]']
+    if [_norm(s) for s in valid2] != [_norm(s) for s in valid3]:
+        raise Unsupported('validation of `axes` differs between random_flip_spatial and random_permute_spatial_axes')
+    if not all(isinstance(s, ast.If) for s in valid3):
+        raise Unsupported('validation of `axes` is no longer a sequence of if-raise statements')
+    import itertools
+    accepted = []
+    for ln in range(0, 5):
+        for axes in itertools.product(range(-1, 4), repeat=ln):
+            try:
+                _exec_block(valid3, {'axes': tuple(axes)})
+                accepted.append(list(axes))
+            except ValueError:
+                pass
+            except Exception as e:  # noqa: BLE001
+                raise Unsupported(f'validation of axes={axes} raised {type(e).__name__}: {e}')
+    rows = ['[' + ', '.join(map(str, a)) + ']' for a in accepted]
+    t3 = lean_table('randomAxesAccepted', 'List (List Int)', rows,
+                    'the `axes` arguments (lists over -1..3 of length 0..4) that pass the validation shared by '
+                    '`random_flip_spatial` and `random_permute_spatial_axes` (the if-raise statements, evaluated)')
+    # ---- what happens to the drawn permutation
+    post = b3[k3 + 1:-1]
+    prow = []
+    for ln in (2, 3):
+        for drawn in itertools.permutations(range(3), ln):
+            try:
+                ns = _exec_block(post, {'indices': list(drawn), 'np': np})
+                res = [int(x) for x in ns['indices']]
+            except Exception as e:  # noqa: BLE001
+                raise Unsupported(f'random_permute_spatial_axes after the draw {drawn}: {type(e).__name__}: {e}')
+            prow.append('([' + ', '.join(map(str, drawn)) + '], [' + ', '.join(map(str, res)) + '])')
+    t4 = lean_table('randomPermuteFill', 'List (List Int × List Int)', prow,
+                    '`random_permute_spatial_axes`: the drawn permutation of `axes` ↦ the indices handed to '
+                    '`permute_spatial_axes` (statements after the draw, evaluated on every ordered pair / triple of 0, 1, 2)')
+    return '\n\n'.join([t1, t2, t3, t4]), span_sha(strip_doc(fn.body) + b2 + b3)
+
+
+class _Sym:
+    """symbolic rational expression: entries of the affine, entries of the shape, one unary `sqrt`"""
+
+    trace = []
+    answer = False
+
+    def __init__(self, e):
+        self.e = e
+
+    @staticmethod
+    def w(o):
+        import numpy as np
+        if isinstance(o, _Sym):
+            return o
+        if isinstance(o, bool):
+            raise Unsupported('boolean in arithmetic')
+        if isinstance(o, (int, np.integer)):
+            return _Sym(('int', int(o)))
+        if isinstance(o, (float, np.floating)):
+            from fractions import Fraction
+            f = Fraction(float(o))
+            return _Sym(('int', f.numerator)) if f.denominator == 1 else _Sym(('rat', f.numerator, f.denominator))
+        raise Unsupported(f'operand of type {type(o).__name__} in an accessor')
+
+    def __add__(self, o): return _Sym(('add', self.e, _Sym.w(o).e))
+    def __radd__(self, o): return _Sym(('add', _Sym.w(o).e, self.e))
+    def __sub__(self, o): return _Sym(('sub', self.e, _Sym.w(o).e))
+    def __rsub__(self, o): return _Sym(('sub', _Sym.w(o).e, self.e))
+    def __mul__(self, o): return _Sym(('mul', self.e, _Sym.w(o).e))
+    def __rmul__(self, o): return _Sym(('mul', _Sym.w(o).e, self.e))
+    def __truediv__(self, o): return _Sym(('div', self.e, _Sym.w(o).e))
+    def __rtruediv__(self, o): return _Sym(('div', _Sym.w(o).e, self.e))
+    def __floordiv__(self, o): return _Sym(('fdiv', self.e, _Sym.w(o).e))
+    def __neg__(self): return _Sym(('neg', self.e))
+
+    def __pow__(self, k):
+        if k != 2:
+            raise Unsupported(f'power {k} in an accessor')
+        return _Sym(('mul', self.e, self.e))
+
+    def sqrt(self): return _Sym(('sqrt', self.e))
+    def item(self): return self
+    def tolist(self): return self
+
+    def __lt__(self, o):
+        _Sym.trace.append(('lt', self.e, _Sym.w(o).e))
+        return _Sym.answer
+
+    def __bool__(self):
+        raise Unsupported('an accessor branches on a value')
+
+
+def _sym_lean(e, mode):
+    k = e[0]
+    if k == 'a':
+        if mode == 'int':
+            raise Unsupported('affine entry in an integer-valued accessor')
+        return f'a {e[1]} {e[2]}'
+    if k == 'n':
+        return f'n {e[1]}' if mode == 'int' else f'((n {e[1]} : Int) : Rat)'
+    if k == 'int':
+        return f'({e[1]} : Int)' if mode == 'int' else f'({e[1]} : Rat)'
+    if k == 'rat':
+        if mode == 'int':
+            raise Unsupported('fraction in an integer-valued accessor')
+        return f'(({e[1]} : Rat) / {e[2]})'
+    if k in ('add', 'sub', 'mul'):
+        sym = {'add': '+', 'sub': '-', 'mul': '*'}[k]
+        return f'({_sym_lean(e[1], mode)} {sym} {_sym_lean(e[2], mode)})'
+    if k == 'div':
+        if mode == 'int':
+            raise Unsupported('true division in an integer-valued accessor')
+        return f'({_sym_lean(e[1], mode)} / {_sym_lean(e[2], mode)})'
+    if k == 'fdiv':
+        if mode != 'int':
+            raise Unsupported('floor division in a rational-valued accessor')
+        return f'(Int.fdiv {_sym_lean(e[1], mode)} {_sym_lean(e[2], mode)})'
+    if k == 'neg':
+        return f'(-{_sym_lean(e[1], mode)})'
+    if k == 'sqrt':
+        if mode == 'int':
+            raise Unsupported('sqrt in an integer-valued accessor')
+        return f'(sq {_sym_lean(e[1], mode)})'
+    raise Unsupported(f'symbolic node {k}')
+
+
+_ACCESSORS = [  # (python name, lean name, kind, result mode)
+    ('position', 'accPosition', 'property', 'rat'),
+    ('spacing', 'accSpacing', 'property', 'rat'),
+    ('pixel_spacing', 'accPixelSpacing', 'property', 'rat'),
+    ('spacing_between_slices', 'accSpacingBetweenSlices', 'property', 'rat'),
+    ('direction_cosines', 'accDirectionCosines', 'property', 'rat'),
+    ('direction', 'accDirection', 'property', 'rat'),
+    ('spacing_vectors', 'accSpacingVectors', 'method', 'rat'),
+    ('unit_vectors', 'accUnitVectors', 'method', 'rat'),
+    ('voxel_volume', 'accVoxelVolume', 'property', 'rat'),
+    ('physical_extent', 'accPhysicalExtent', 'property', 'rat'),
+    ('physical_volume', 'accPhysicalVolume', 'property', 'rat'),
+    ('center_indices', 'accCenterIndices', 'property', 'rat'),
+    ('nearest_center_indices', 'accNearestCenterIndices', 'property', 'int'),
+    ('affine', 'accAffine', 'property', 'rat'),
+]
+
+
+def build_T9n(tree):
+    """The geometric accessors of `_VolumeBase`, run symbolically: the current source of each property is compiled and
+    evaluated on an affine whose entries are symbols `a i j`, a shape of symbols `n d` and a symbolic `sqrt`; what comes
+    back is emitted as Lean expressions.  `handedness`: the compared expression and which member each outcome returns."""
+    import numpy as np
+    cls = find_func(tree, '_VolumeBase')
+    names = [a[0] for a in _ACCESSORS] + ['handedness']
+    fns = {}
+    for n in cls.body:
+        if isinstance(n, ast.FunctionDef) and n.name in names:
+            decs = [_norm(d) for d in n.decorator_list]
+            if decs not in ([], ['property']):
+                continue        # setters and the like
+            f = ast.parse(ast.unparse(n)).body[0]
+            f.returns = None
+            for arg in f.args.args:
+                arg.annotation = None
+            fns[n.name] = f
+    missing = [n for n in names if n not in fns]
+    if missing:
+        raise Unsupported(f'accessors not found in _VolumeBase: {missing}')
+    for name, _, kind, _ in _ACCESSORS:
+        if (kind == 'property') != bool(fns[name].decorator_list):
+            raise Unsupported(f'{name} changed between property and method')
+    cdef = ast.ClassDef(name='Acc', bases=[], keywords=[], body=[fns[n] for n in names], decorator_list=[])
+    mod = ast.Module(body=[cdef], type_ignores=[])
+    ast.fix_missing_locations(mod)
+
+    class _H:
+        LEFT_HANDED = 'LEFT_HANDED'
+        RIGHT_HANDED = 'RIGHT_HANDED'
+    ns = {'np': np, 'AxisHandedness': _H}
+    try:
+        exec(compile(mod, '<volume.py accessors>', 'exec'), ns)   # noqa: S102  (the current source, on symbols)
+    except Exception as e:  # noqa: BLE001
+        raise Unsupported(f'accessors could not be compiled: {type(e).__name__}: {e}')
+
+    def fresh():
+        obj = ns['Acc'].__new__(ns['Acc'])
+        a = np.empty((4, 4), dtype=object)
+        for i in range(3):
+            for j in range(4):
+                a[i, j] = _Sym(('a', i, j))
+        a[3] = [_Sym(('int', 0)), _Sym(('int', 0)), _Sym(('int', 0)), _Sym(('int', 1))]
+        obj._affine = a
+        obj.spatial_shape = (_Sym(('n', 0)), _Sym(('n', 1)), _Sym(('n', 2)))
+        return obj
+
+    def flat(x):
+        if isinstance(x, _Sym):
+            return [x]
+        if isinstance(x, np.ndarray):
+            return [y for row in x.tolist() for y in (flat(row))] if x.ndim > 0 else flat(x.item())
+        if isinstance(x, (list, tuple)):
+            return [y for el in x for y in flat(el)]
+        return [_Sym.w(x)]
+    parts = []
+    for name, lean, kind, mode in _ACCESSORS:
+        try:
+            obj = fresh()
+            val = getattr(obj, name)
+            if kind == 'method':
+                val = val()
+            items = flat(val)
+        except Unsupported:
+            raise
+        except Exception as e:  # noqa: BLE001
+            raise Unsupported(f'accessor {name} could not be evaluated on symbols: {type(e).__name__}: {e}')
+        if name == 'affine':
+            items = items[:12]       # the last row is the constant 0 0 0 1
+        typ = 'Int' if mode == 'int' else 'Rat'
+        exprs = ',\n   '.join(_sym_lean(s.e, mode) for s in items)
+        parts.append(f'/-- `_VolumeBase.{name}` evaluated on a symbolic affine `a i j`, shape `n d` and square root `sq` '
+                     f'({len(items)} values, flattened row-major) -/\n'
+                     f'def {lean} (sq : Rat → Rat) (a : Nat → Nat → Rat) (n : Nat → Int) : List {typ} :=\n  [{exprs}]')
+    # handedness: compared expression and the member returned for each outcome
+    outcomes = {}
+    for ans in (True, False):
+        _Sym.trace, _Sym.answer = [], ans
+        try:
+            outcomes[ans] = fresh().handedness
+        except Unsupported:
+            raise
+        except Exception as e:  # noqa: BLE001
+            raise Unsupported(f'handedness could not be evaluated on symbols: {type(e).__name__}: {e}')
+        if len(_Sym.trace) != 1 or _Sym.trace[0][0] != 'lt' or _Sym.trace[0][2] != ('int', 0):
+            raise Unsupported(f'handedness no longer decides by one comparison `<expr> < 0`: {_Sym.trace}')
+        expr = _Sym.trace[0][1]
+    _Sym.trace, _Sym.answer = [], False
+    if outcomes[True] not in ('LEFT_HANDED', 'RIGHT_HANDED') or outcomes[False] not in ('LEFT_HANDED', 'RIGHT_HANDED'):
+        raise Unsupported(f'handedness returns {outcomes}')
+    parts.append('/-- `_VolumeBase.handedness`: the expression compared with `< 0.0` -/\n'
+                 f'def accHandednessTest (a : Nat → Nat → Rat) : Rat :=\n  {_sym_lean(expr, "rat")}')
+    parts.append('/-- `_VolumeBase.handedness`: (member returned when the test is negative, member returned otherwise) -/\n'
+                 f'def accHandednessMembers : String × String := ("{outcomes[True]}", "{outcomes[False]}")')
+    return '\n\n'.join(parts), span_sha([fns[n] for n in names])
+
+
+TARGETS['T9m'] = {'file': 'volume.py', 'build': build_T9m}
+TARGETS['T9n'] = {'file': 'volume.py', 'build': build_T9n}
